@@ -351,7 +351,14 @@ func checkImage(cfg eng.Config, world *model.World, uni *eng.Universe, marks []r
 	deadline := time.Now().Add(20 * time.Second)
 	drained := false
 	for time.Now().Before(deadline) {
-		nt.NotifyMerger("verif", true)
+		answered := make(chan struct{})
+		go func() { nt.NotifyMerger("verif", true); close(answered) }()
+		select {
+		case <-answered:
+		case <-time.After(20 * time.Second):
+			closeBoth()
+			return "inconclusive", disc, "a synchronous merger notification was not answered within the watchdog"
+		}
 		st, _ := coll.Stats()
 		if len(bgList()) > 0 {
 			break
